@@ -477,7 +477,7 @@ WITNESSES = {"C09:RandomForestClassifier:refused-although-fits": witness_forest,
 def check(ctx):
     r = ctx.fork("scenarios")
     max_cells = 400
-    n = ctx.budget(2400, 24000)
+    n = ctx.budget(2400, 15000)
     entries = T.STAT_TOOLS + T.HIST_TOOLS + T.QUANT_TOOLS + MODELS
     scs = [dict(FOREST_WITNESS)]
     for i in range(n):
